@@ -257,7 +257,7 @@ def rotate_complex_once(seq, sst, turns = None):
                 try:
                     stack.pop()
                 except IndexError:
-                    raise SecondaryStructureErrro("Unbalanced parenthesis.")
+                    raise SecondaryStructureError("Unbalanced parenthesis.")
         for i in stack:
             nstr[i] = ")"
         stack = []
